@@ -244,6 +244,18 @@ def handwritten_corpus(ctx, optsets):
     docs = ['<root xmlns="urn:tw"><buyer><info><name>A</name><email>a@b</email></info></buyer><seller><info rating="4.5"><code>42</code></info></seller></root>',
             '<root xmlns="urn:tw"><buyer><info><name>A</name></info></buyer><seller><info rating="1"><code>7</code></info></seller>'
             "<agent><info><since>2020-02-29</since><info><name>N</name><email>e</email></info></info></agent></root>"]
+    # a model group and an attribute group of ONE name (separate symbol spaces), both referenced by one type, in both orders
+    def same_name(first_group):
+        grp = '<xs:group name="G"><xs:sequence><xs:element name="p" type="xs:int"/><xs:element name="q" type="xs:string" minOccurs="0"/></xs:sequence></xs:group>'
+        agr = '<xs:attributeGroup name="G"><xs:attribute name="a1" type="xs:int" use="required"/><xs:attribute name="a2" type="xs:string"/></xs:attributeGroup>'
+        return ('<xs:schema xmlns:xs="http://www.w3.org/2001/XMLSchema" targetNamespace="urn:g" xmlns:t="urn:g" elementFormDefault="qualified">'
+                + (grp + agr if first_group else agr + grp)
+                + '<xs:element name="root"><xs:complexType><xs:sequence><xs:element name="h" type="xs:string"/><xs:group ref="t:G"/></xs:sequence>'
+                '<xs:attributeGroup ref="t:G"/></xs:complexType></xs:element></xs:schema>')
+    gdocs = ['<t:root xmlns:t="urn:g" a1="5" a2="two"><t:h>t</t:h><t:p>4</t:p></t:root>', '<t:root xmlns:t="urn:g" a1="6"><t:h>t</t:h><t:p>4</t:p><t:q>cue</t:q></t:root>']
+    for first_group in (True, False):
+        run_compose_schema(ctx, {"_files": {"main.xsd": same_name(first_group)}, "name": "group and attribute group of one name"},
+                           [{"doc": d, "uniform": True} for d in gdocs], optsets[:2])
     schema = {"_files": {"main.xsd": twins}, "name": "same-named local elements with different anonymous types"}
     run_compose_schema(ctx, schema, [{"doc": d, "uniform": True} for d in docs], optsets)
 
@@ -252,7 +264,7 @@ def run_compose(ctx):
     mc = ("SPECIFICATION Spec\nCONSTANTS\n  MaxDocIdx = 5\nCONSTRAINT MCOnly\nINVARIANT InvFixpointIsWalk\nINVARIANT InvLegalDerivation\n"
           "INVARIANT InvHeadsAccepted\nINVARIANT InvOccRespected\nCHECK_DEADLOCK FALSE\n")
     ctx.tlc("MC_Compose", "run.cfg", extra_files={"run.cfg": mc}, label="MC_Compose substitution closure / derivation / abstractness", timeout=1500)
-    res = ctx.tlc("MC_Compose", "run.cfg", workers=1, simulate=f"num={ctx.pick(160, 4000)}", depth=15,
+    res = ctx.tlc("MC_Compose", "run.cfg", workers=1, simulate=f"num={ctx.pick(160, 4000)}", depth=18,      # (16 slots + the initial state)
                   extra_files={"run.cfg": "SPECIFICATION Spec\nCONSTANTS\n  MaxDocIdx = 5\nCONSTRAINT Emit\nCHECK_DEADLOCK FALSE\n"},
                   label="Gen_Compose schemas and documents", tags=("CMP",), timeout=3000)
     by = {}
@@ -268,6 +280,9 @@ def run_compose(ctx):
         if n == 0:
             ctx.sample({"xsd": cb.schema_files(cases[0]["schema"]), "document": cb.doc_xml(cases[0]["schema"], cases[0]["doc"])})
     ctx.extra["compose_schemas"] = len(by)
+    if len(by) < 20:
+        # a walk that is too short for the slots never completes a schema: the family would silently check nothing
+        raise MachineryError(f"the Compose simulation produced only {len(by)} complete schemas")
     handwritten_corpus(ctx, optsets)
 
 
